@@ -2686,7 +2686,11 @@ class RootTransaction(Transaction):
 
     def _close_impl(self, try_deactivate: bool = False) -> None:
         try:
-            if self.is_active:
+            if self.is_active or self.connection._transaction is self:
+                # a transaction that is inactive but still present on the
+                # connection is one whose commit() failed; the database
+                # level transaction may still be in progress, so emit
+                # the ROLLBACK in this case as well
                 self._connection_rollback_impl()
 
             if self.connection._nested_transaction:
